@@ -262,6 +262,27 @@ def unique(run, F):
                'seed per validity of the first element: %s' % sorted((sorted(a_), sd) for a_, sd in norm_))
     run.ob('UNQ.table', fn, 'Keep::Last pipeline: shifted by one, closed by a trailing null', ok,
            fn.loc(), det)
+    # the canonical form merges `Some(v)` with `v.not_none()`; the element-level null test of the
+    # first element is therefore checked on the typed tree: between `next()` and the pipeline the
+    # first element goes through IsNone::not_none / is_none / to_opt
+    cl_last = by_arm.get('Last')
+    if cl_last is not None:
+        from facts import walk_with_parents
+        arm_blk = None
+        for x, parents in walk_with_parents(fn.hir):
+            if x is cl_last:
+                blks = [p_ for p_ in parents if p_.get('k') == 'Block']
+                arm_blk = blks[-1] if blks else None
+        tests = []
+        if arm_blk is not None:
+            for st in arm_blk.get('stmts', []):
+                body_ = st.get('init') or st.get('e') or {}
+                if any(y is cl_last for y in walk(body_)):
+                    break
+                tests += [y for y in walk(body_) if y.get('k') == 'MethodCall' and
+                          callee_is(y, 'IsNone::not_none', 'IsNone::is_none', 'IsNone::to_opt')]
+        run.ob('UNQ.table', fn, 'Keep::Last: the first element is null-tested before it seeds the run state',
+               bool(tests), fn.loc(), '%d element-level null test(s) before the pipeline' % len(tests))
     fn = F.one('MapValidBasic::vsorted_unique')
     cls = [x for x in walk(fn.hir) if x.get('k') == 'Closure']
     want = T((['VALID(a0)', 'VALID(value)', '(a0 != value)'], 'Some(IsNone::from_inner(a0))', ['value = Some(a0)']),
